@@ -236,7 +236,8 @@ def gen_dag(rng):
     for x in range(n):
         ops += [['deps', 0, x], ['dependees', 0, x], ['deps_rec', 0, x]]
     ops += [['initial', 0], ['terminal', 0], ['topo', 0], ['dump', 0]]
-    return {'ops': ops}
+    # the nodes are plain Python integers that have nothing to do with their position in the graph
+    return {'ops': ops, 'intnodes': rng.choice([None, None, 'id', 'rev', 'affine'])}
 
 
 def gen(rng, tier, run):
@@ -447,7 +448,7 @@ def shrink(case):
     # dropping an op is only valid when variable numbering is preserved: drop non-creating ops only
     for i in range(len(ops) - 1, -1, -1):
         if ops[i][0] not in ('new', 'copy', 'invert', 'add'):
-            yield {'ops': ops[:i] + ops[i + 1:]}
+            yield dict(case, ops=ops[:i] + ops[i + 1:])
 
 
 # ------------------------------------------------------------------------------------------------
@@ -462,6 +463,8 @@ def run_impl(case, run):
     def obj(x):
         if x >= NB:
             return gvars[x - NB]
+        if case.get('intnodes'):
+            return 7 * x + 3 if case['intnodes'] == 'affine' else (len(case['ops']) + 5 - x if case['intnodes'] == 'rev' else x)
         if x not in plain:
             plain[x] = Node(x)
         return plain[x]
@@ -469,6 +472,8 @@ def run_impl(case, run):
     def nid(o):
         if isinstance(o, DepGraph):
             return NB + next(i for i, g in enumerate(gvars) if g is o)
+        if case.get('intnodes'):
+            return (o - 3) // 7 if case['intnodes'] == 'affine' else (len(case['ops']) + 5 - o if case['intnodes'] == 'rev' else o)
         return o.k
 
     def dump(g):
